@@ -18,7 +18,7 @@ SAMPLING = [('rate1', 1.0, None), ('rate0', 0.0, 0.5), ('frac_in', 0.5, 0.1), ('
 KINDS_IN = ['key_unbuildable', 'handler_raises', 'discard_in_body', 'interrupt_in_body', 'discard_before', 'raise_before',
             'interrupt_before', 'force_before', 'fallback_raises', 'resolver_raises', 'disable_in_body', 'disable_in_body_handler_raises']
 KINDS_OUT = ['handler_raises', 'discard_in_body', 'interrupt_in_body', 'discard_before', 'raise_before', 'interrupt_before',
-             'force_before', 'disable_in_body', 'disable_in_body_handler_raises']
+             'force_before', 'disable_in_body', 'disable_in_body_handler_raises', 'disable_in_handler']
 
 META = {
     'engine': 'recplay',
@@ -118,6 +118,10 @@ def _run(tape, clock):
             run.probe('interception_after_recording_was_switched_off')
         elif f.get('disable') or f.get('disable_in_body'):
             run.probe('recording_switched_off_without_later_interception')
+        if f.get('disable_in_handler'):
+            # switched off between the capture of the output's arguments and of its result: that call is not whole
+            discarded = True
+            run.probe('switched_off_while_an_output_was_being_captured')
         if f.get('discard_in_extractor'):
             run.probe('discard_requested_during_finalisation')
         forced = (f.get('force_sample') or f.get('force_in_body')) and not ignore_forced
